@@ -8,6 +8,7 @@ rge            : local law  da/du = -beta(a)  (u = ln mu^2) at the reference poi
 expanded-order : |a_expanded - a_exact| under a_ref -> a_ref/2 at fixed u (absolute exponent)
 monotone       : a_s strictly decreasing along an increasing grid of scales (count of inversions)
 
+rge-far        : the same local law around a target 1-4 units of ln mu^2 away from the reference (h = 0.02)
 rge-tau-down/up: the same local law at a target on the other side of m_tau^2 from the reference
                  (running QED: two leptons below, three above), 5-point difference around the target
 tau-cont-down/up: the couplings just below and just above m_tau^2 agree (reference on either side)
@@ -97,6 +98,33 @@ def measure(cell, seed, npts):
                 res = max(res, abs(d[1] - de) / abs(de))
             else:
                 res = max(res, max(abs(a_of(u)[1] - sc.a_ref[1]) for u in (h, -h)) / sc.a_ref[1])
+        elif clause == "rge-far":
+            from eko import constants
+
+            h = 0.02
+            for _try in range(50):
+                alphas, alphaem, muref = _draw(rng)
+                u = rng.uniform(1.0, 4.0) * (1 if (alphas > 0.2 or rng.random() < 0.6) else -1)
+                s_t = muref**2 * math.exp(u)
+                if s_t * math.exp(-2 * h) < 1.1 * constants.MTAU**2:
+                    continue
+                sc = _couplings(order, qed, running, method, nf, alphas, alphaem, muref)
+
+                def a_far(v):
+                    return np.array(sc.a(s_t * math.exp(v), nf), dtype=float)
+
+                lo = a_far(-2 * h)
+                if np.all(np.isfinite(lo)) and 0.0 < lo[0] < 0.04:
+                    break
+            else:
+                raise RuntimeError("no perturbative instance")
+            d = (-a_far(2 * h) + 8 * a_far(h) - 8 * a_far(-h) + a_far(-2 * h)) / (12 * h)
+            ds, de = _beta_indep(a_far(0.0), order, qed, running, nf)
+            res = abs(d[0] - ds) / abs(ds)
+            if running:
+                res = max(res, abs(d[1] - de) / abs(de))
+            else:
+                res = max(res, abs(a_far(0.0)[1] - sc.a_ref[1]) / sc.a_ref[1])
         elif clause in ("rge-tau-down", "rge-tau-up"):
             from eko import constants
 
